@@ -17,6 +17,7 @@
 From Coq Require Import List NArith Bool Sorted.
 From Agdb Require Import ExecSched ExecSchedProofs.
 Import ListNotations.
+Import ExecM.
 Open Scope N_scope.
 
 (* FULL (FifoWorker, no restart): for every log, every list of events (any commits, any scheduler choices,
